@@ -525,11 +525,39 @@ func (w *c20World) eval(c c20Case) (o c20Outcome, fs []vrt.Finding) {
 }
 
 // c20Named reports whether the validation error names one of the changed
-// properties.
+// properties.  If a case removes every property of a mapping, the mapping
+// itself has become empty and its own name is the offending property.
 func (w *c20World) named(c c20Case, errText string) bool {
+	removed := map[string]bool{}
+	for _, m := range c.Muts {
+		if m.Value == c20Missing {
+			removed[m.Path] = true
+		}
+	}
 	for _, m := range c.Muts {
 		l := w.byPath[m.Path]
 		if c20ContainsWord(errText, l.Key) {
+			return true
+		}
+		if m.Value != c20Missing {
+			continue
+		}
+		parent := strings.TrimSuffix(l.Path, "."+l.Key)
+		if parent == l.Path {
+			continue
+		}
+		empty := true
+		for i := range w.leaves {
+			o := &w.leaves[i]
+			if strings.HasPrefix(o.Path, parent+".") && !removed[o.Path] {
+				empty = false
+			}
+		}
+		pk := parent
+		if i := strings.LastIndexByte(parent, '.'); i >= 0 {
+			pk = parent[i+1:]
+		}
+		if empty && c20ContainsWord(errText, pk) {
 			return true
 		}
 	}
@@ -804,6 +832,9 @@ func TestVerifC20(t *testing.T) {
 	n := 0
 	run := func(c c20Case) (fs []vrt.Finding) {
 		n++
+		if os.Getenv("VERIF_C20_TRACE") != "" {
+			fmt.Fprintf(os.Stderr, "case %d: %v\n", n, c)
+		}
 		if n%128 == 0 {
 			// Reap the go-cache janitors of the rate limiters built so far.
 			runtime.GC()
